@@ -5,14 +5,34 @@ from .world import Capture, Hang, new_loop, port_block, task_outcome, udp_send, 
 
 
 class BridgeWorld:
-    def __init__(self, nports=1, raise_on=None, loop=None, ports=None):
+    def __init__(self, nports=1, raise_on=None, loop=None, ports=None, cb_kind="method"):
+        import functools
+
         from aioswitcher.bridge import SwitcherBridge
 
         self.loop = loop or new_loop()
         self.ports = list(ports) if ports is not None else port_block().ports[:nports]
         self.calls = []  # devices delivered, in order
         self.raise_on = raise_on or (lambda n, dev: False)
-        self.bridge = SwitcherBridge(self._cb, broadcast_ports=self.ports)
+        # the user's callback in the shapes users write it
+        if cb_kind == "method":
+            cb = self._cb
+        elif cb_kind == "function":
+            def cb(dev, _self=self):
+                _self._cb(dev)
+        elif cb_kind == "lambda":
+            cb = lambda dev: self._cb(dev)  # noqa: E731
+        elif cb_kind == "partial":
+            cb = functools.partial(BridgeWorld._cb, self)
+        elif cb_kind == "temporary-object-method":
+            cb = _Collector(self).add  # nothing else refers to the collector
+        elif cb_kind == "callable-object":
+            cb = _Collector(self)
+        elif cb_kind == "list-append":
+            cb = self.calls.append
+        else:
+            raise KeyError(cb_kind)
+        self.bridge = SwitcherBridge(cb, broadcast_ports=self.ports)
 
     def _cb(self, dev):
         n = len(self.calls)
@@ -44,6 +64,16 @@ class BridgeWorld:
         except Exception:  # noqa: BLE001
             pass
         self.loop.finish()
+
+
+class _Collector:
+    def __init__(self, world):
+        self.world = world
+
+    def add(self, dev):
+        self.world._cb(dev)
+
+    __call__ = add
 
 
 class CallbackBoom(Exception):
